@@ -166,8 +166,10 @@ class StandInPrev:
 
 def main():
   rep = vlib.Report(PROP, "proof")
-  info = vlib.build_obligations(PROP)
-  errs = rep.obligations(info, "coqc -Q coq/theories QV coq/theories/Properties/C14.v")
+  from translate import exportgen
+  xgen = exportgen.emit(vlib.GEN)
+  info = vlib.build_obligations(PROP, gen_files=[xgen], extra_files=[os.path.join(vlib.COQ, "theories", "Link", "ExportLink.v")])
+  errs = rep.obligations(info, "python3 tools/translate/exportgen.py coq/gen && coqc coq/gen/ExportGen.v && coqc coq/theories/Link/ExportLink.v && coqc coq/theories/Properties/C14.v")
   for e in errs:
     rep.violation("obligation-" + os.path.basename(e["file"]), "proof obligation no longer checks: " + e["error"][-400:],
                   {"file": e["file"]}, no_input=True)
@@ -193,6 +195,7 @@ def main():
   env.install_keras2_graph_shims()
   n = 16 if rep.tier == "quick" else 300
   po2_t, auto_t, items = [], [], []
+  book_items = []
   n_ok = n_ind = n_frozen = 0
   sample = None
   for i in range(n):
@@ -244,6 +247,20 @@ def main():
         rep.violation(f"missing-entry-{i}-{l.name}", f"no dictionary entry for quantized layer {l.name}", {})
         good = False
         continue
+      # the bookkeeping of this layer's entry against the regenerated loop (Export/Book.v via coq/gen/ExportGen.v)
+      def kind_(q_):
+        if q_ is None:
+          return "KNone"
+        n_ = qname(q_)
+        return {"quantized_po2": "KPo2", "quantized_relu_po2": "KReluPo2"}.get(n_) or ("KAutoPo2" if n_ == "quantized_bits" and q_.alpha == "auto_po2"
+                                                                                         else ("KFixed" if n_ == "quantized_bits" else "KOtherQ"))
+      ks_ = [kind_(q_) for q_, _w in zip(l.get_quantizers(), got)]
+      nonempty = lambda v: int(np.asarray(v).size > 0)
+      sg_, sc_ = e.get("signs"), e.get("scales")
+      obs = [int(sg_ is not None), int(sc_ is not None), len(e["weights"])]
+      obs += [nonempty(v) for v in sg_] if sg_ is not None else []
+      obs += [nonempty(v) for v in sc_] if sc_ is not None else []
+      book_items.append((i, l.name, type(l).__name__, ks_, obs))
       for k, (q, w_want, w_got) in enumerate(zip(l.get_quantizers(), want[l.name], got)):
         if not same_bits(w_want, w_got):
           good = False
@@ -429,6 +446,21 @@ def main():
       bad_bn += 1
       rep.violation(f"bn-fuse-float-{it[0]}-{it[1]}", f"add_bn_fusing_weights (scale={it[2]}, center={it[3]}, quantized={it[4]}, use_bias={it[5]}) channel {it[1]}: "
                     f"bn_inv / fused_bias differ from gamma*rsqrt(var+eps) / inv*bias + beta - inv*mean (code {r_})", {})
+  # bookkeeping of every exported layer: the dictionary entry against the loop regenerated from utils.py, run in Coq on the layer's own quantizer kinds
+  if book_items and not errs:
+    bbody = ("From Coq Require Import List ZArith.\nFrom QV Require Import Export.Book.\nFrom QVGen Require Import ExportGen.\nImport ListNotations.\n" +
+             "".join(f"Eval vm_compute in render_book (run gen_effect [{'; '.join(ks_)}]).\n" for _i, _n, _c, ks_, _o in book_items))
+    bouts = vlib.coq_eval(PROP + "_book", bbody)
+    n_book = 0
+    for (i_, name_, cls_, ks_, obs), bk in zip(book_items, bouts):
+      nw = bk[2]
+      want = [bk[0], bk[1], nw] + (bk[3:3 + nw] if bk[0] else []) + (bk[3 + nw:3 + 2 * nw] if bk[1] else [])
+      if obs != want:
+        rep.violation(f"export-bookkeeping-{i_}-{name_}", f"{cls_} {name_} with weight quantizer kinds {ks_}: the dictionary entry has [signs present, scales present, #weights, "
+                      f"non-empty sign entries, non-empty scale entries] = {obs} but the export loop run on these kinds gives {want}", {"kinds": ks_})
+      else:
+        n_book += 1
+    rep.note(export_bookkeeping=dict(layers=len(book_items), agree=n_book, with_unquantized_slot=sum(1 for it in book_items if "KNone" in it[3])))
   rep.note(models=n, frozen_quantized_layers=n_frozen, models_all_checks_ok=n_ok, data_independent_models=n_ind, po2_elements=len(res["po2"]), auto_po2_elements=len(res["auto"]),
            bn_fusing_channels=len(res["bn"]), bad_po2_tensors=bad_po2, bad_auto_tensors=bad_auto, bad_bn_channels=bad_bn)
   if sample:
